@@ -141,6 +141,8 @@ pub enum Acc {
 pub enum Op {
     Open(Cfg),
     Close,
+    /// close the handle but keep the finished sessions and overlays (they do not borrow it)
+    CloseKeep,
     Begin { s: u32, chain: Vec<u32>, witness: bool },
     SRead { s: u32, key: Key },
     SProve { s: u32, key: Key },
@@ -194,6 +196,7 @@ impl Op {
         match self {
             Op::Open(c) => format!("open {}", c.to_line()),
             Op::Close => "close".into(),
+            Op::CloseKeep => "closekeep".into(),
             Op::Begin { s, chain, witness } => format!("begin {} [{}] {}", s, ids(chain), *witness as u8),
             Op::SRead { s, key } => format!("sread {} {}", s, hex(key)),
             Op::SProve { s, key } => format!("sprove {} {}", s, hex(key)),
@@ -226,6 +229,7 @@ impl Op {
         match cmd {
             "open" => Op::Open(Cfg::parse(rest)),
             "close" => Op::Close,
+            "closekeep" => Op::CloseKeep,
             "begin" => Op::Begin { s: t[0].parse().unwrap(), chain: ids(t[1]), witness: t[2] == "1" },
             "sread" => Op::SRead { s: t[0].parse().unwrap(), key: key_from_hex(t[1]) },
             "sprove" => Op::SProve { s: t[0].parse().unwrap(), key: key_from_hex(t[1]) },
@@ -305,6 +309,7 @@ pub struct Stats {
     pub deferred: usize,
     pub refused_chains: usize,
     pub stale_chains: usize,
+    pub cross_handle_commits: usize,
     pub lock_retries: usize,
     pub max_keys: usize,
     pub value_len_classes: BTreeMap<&'static str, usize>,
@@ -327,6 +332,7 @@ impl Stats {
         self.deferred += o.deferred;
         self.refused_chains += o.refused_chains;
         self.stale_chains += o.stale_chains;
+        self.cross_handle_commits += o.cross_handle_commits;
         self.lock_retries += o.lock_retries;
         self.max_keys = self.max_keys.max(o.max_keys);
         for (k, v) in &o.value_len_classes {
@@ -364,6 +370,10 @@ pub struct Runner<H: HashAlgorithm> {
     sessions: HashMap<u32, (Session<H>, Vec<u32>, bool)>,
     finished: HashMap<u32, FinishedSession>,
     overlays: HashMap<u32, Overlay>,
+    /// change sets kept across a `closekeep`: id -> number of applied commits/rollbacks when prepared
+    foreign: HashMap<u32, u64>,
+    prep_at: HashMap<u32, u64>,
+    applied: u64,
     pub model: Model,
     vals: HashMap<[u8; 32], u32>,
     descs: Vec<ValDesc>,
@@ -402,6 +412,9 @@ impl<H: HashAlgorithm> Runner<H> {
             sessions: HashMap::new(),
             finished: HashMap::new(),
             overlays: HashMap::new(),
+            foreign: HashMap::new(),
+            prep_at: HashMap::new(),
+            applied: 0,
             model: Model::spawn(),
             vals: HashMap::new(),
             descs: Vec::new(),
@@ -736,6 +749,7 @@ impl<H: HashAlgorithm> Runner<H> {
                 self.sessions.clear();
                 self.finished.clear();
                 self.overlays.clear();
+                self.foreign.clear();
                 if let Some(db) = self.db.take() {
                     let u = db.hash_table_utilization();
                     self.last_util = Some((u.occupied, u.capacity));
@@ -743,7 +757,20 @@ impl<H: HashAlgorithm> Runner<H> {
                 }
                 Ok(())
             }
-            Op::Begin { chain, .. } if chain.iter().any(|c| !self.overlays.contains_key(c)) => Ok(()),
+            Op::CloseKeep => {
+                self.sessions.clear();
+                for c in self.finished.keys().chain(self.overlays.keys()) {
+                    let at = self.prep_at.get(c).copied().unwrap_or(0);
+                    self.foreign.entry(*c).or_insert(at);
+                }
+                if let Some(db) = self.db.take() {
+                    let u = db.hash_table_utilization();
+                    self.last_util = Some((u.occupied, u.capacity));
+                    drop(db);
+                }
+                Ok(())
+            }
+            Op::Begin { chain, .. } if chain.iter().any(|c| !self.overlays.contains_key(c) || self.foreign.contains_key(c)) => Ok(()),
             Op::Begin { s, chain, witness } => {
                 let r = self.model.ask(&format!(
                     "session {}",
@@ -799,7 +826,7 @@ impl<H: HashAlgorithm> Runner<H> {
             {
                 Ok(())
             }
-            Op::Overlay { c } if !self.finished.contains_key(c) => Ok(()),
+            Op::Overlay { c } if !self.finished.contains_key(c) || self.foreign.contains_key(c) => Ok(()),
             Op::Commit { c, .. } if !self.finished.contains_key(c) && !self.overlays.contains_key(c) => Ok(()),
             Op::DropC { c } if !self.finished.contains_key(c) && !self.overlays.contains_key(c) => Ok(()),
             Op::SRead { s, key } => {
@@ -882,6 +909,7 @@ impl<H: HashAlgorithm> Runner<H> {
                 self.set_view(ViewTag::Cset(*c));
                 let r = fs.root().into_inner();
                 self.finished.insert(*c, fs);
+                self.prep_at.insert(*c, self.applied);
                 self.cmp_root(i, "finished session root", r)
             }
             Op::DropS { s } => {
@@ -897,7 +925,17 @@ impl<H: HashAlgorithm> Runner<H> {
                 self.overlays.insert(*c, o);
                 self.cmp_root(i, "overlay root", r)
             }
+            Op::Commit { c, .. } if self.foreign.get(c) == Some(&self.applied) || (self.foreign.contains_key(c) && !self.sessions.is_empty()) => {
+                // kept across a close, but nothing was applied since it was prepared (its base IS
+                // the current state), or a session is alive (hand-back comes first): nothing is
+                // specified about the outcome; the change set is dropped uncommitted
+                self.finished.remove(c);
+                self.overlays.remove(c);
+                self.foreign.remove(c);
+                Ok(())
+            }
             Op::Commit { c, nb } => {
+                let foreign_at = self.foreign.remove(c);
                 let busy = *nb && !self.sessions.is_empty();
                 assert!(*nb || self.sessions.is_empty(), "script: blocking commit with a live session would deadlock");
                 let db = self.db.as_ref().expect("script: commit while closed");
@@ -957,6 +995,7 @@ impl<H: HashAlgorithm> Runner<H> {
                             return Err(self.mm("skip", i, format!("crash commit: model says {}", m)));
                         }
                         self.stats.commits += 1;
+                        self.applied += 1;
                     } else {
                         self.model.expect_ok(&format!("drop {}", c));
                     }
@@ -978,10 +1017,20 @@ impl<H: HashAlgorithm> Runner<H> {
                     "ok" => "ok",
                     "stale" | "parent" => "err",
                     "deferred" => "deferred",
+                    // a change set kept across `closekeep`: the specification's reopen forgets every
+                    // change set, so it is not a change set of this handle; the state moved since
+                    // it was prepared (checked above), so its base is no longer the current state
+                    "unknown" if foreign_at.is_some() => {
+                        self.stats.cross_handle_commits += 1;
+                        "err"
+                    }
                     _ => panic!("script: model says {} for commit {}", m, c),
                 };
                 match mclass {
-                    "ok" => self.stats.commits += 1,
+                    "ok" => {
+                        self.stats.commits += 1;
+                        self.applied += 1;
+                    }
                     "err" => self.stats.rejected += 1,
                     _ => self.stats.deferred += 1,
                 }
@@ -1024,6 +1073,9 @@ impl<H: HashAlgorithm> Runner<H> {
                     } else {
                         Err(self.mm("skip", i, "rollback outcome disagreement".into()))
                     };
+                }
+                if got == "ok" && *n > 0 {
+                    self.applied += 1;
                 }
                 self.light_check(i, "after rollback")
             }
